@@ -975,6 +975,57 @@ fn abandoned_join_handle(rep: &mut Report) {
             );
         }
     }
+    // the queue is built while a scoped tracing subscriber is current that itself owns a handle of
+    // the queue (it turns log lines into entries); handle forgotten, the user's handles and the
+    // subscriber dropped: nobody can append any more
+    {
+        struct Holding(Arc<Mutex<Option<metrique_writer::sink::BackgroundQueue<Tag>>>>);
+        impl tracing::Subscriber for Holding {
+            fn enabled(&self, _: &tracing::Metadata<'_>) -> bool {
+                true
+            }
+            fn new_span(&self, _: &tracing::span::Attributes<'_>) -> tracing::span::Id {
+                tracing::span::Id::from_u64(1)
+            }
+            fn record(&self, _: &tracing::span::Id, _: &tracing::span::Record<'_>) {}
+            fn record_follows_from(&self, _: &tracing::span::Id, _: &tracing::span::Id) {}
+            fn event(&self, _: &tracing::Event<'_>) {}
+            fn enter(&self, _: &tracing::span::Id) {}
+            fn exit(&self, _: &tracing::span::Id) {}
+        }
+        let slot: Arc<Mutex<Option<metrique_writer::sink::BackgroundQueue<Tag>>>> = Default::default();
+        let dispatch = tracing::Dispatch::new(Holding(slot.clone()));
+        let seen = Arc::new(Mutex::new(Vec::new()));
+        let closed = Arc::new(std::sync::atomic::AtomicBool::new(false));
+        let (queue, handle) = tracing::dispatcher::with_default(&dispatch, || {
+            BackgroundQueueBuilder::new()
+                .capacity(16)
+                .flush_interval(std::time::Duration::from_millis(10))
+                .build::<Tag>(ClosingStream(seen.clone(), closed.clone()))
+        });
+        *slot.lock().unwrap() = Some(queue.clone());
+        handle.forget();
+        for id in 0..3u64 {
+            queue.append(Tag(id));
+        }
+        drop(queue);
+        drop(slot);
+        drop(dispatch);
+        let t0 = std::time::Instant::now();
+        while !closed.load(std::sync::atomic::Ordering::SeqCst) && t0.elapsed() < std::time::Duration::from_secs(30) {
+            std::thread::sleep(std::time::Duration::from_millis(5));
+        }
+        let is_closed = closed.load(std::sync::atomic::Ordering::SeqCst);
+        let got = seen.lock().unwrap().clone();
+        runs.push(json!({"join_handle_abandoned_by": "forget(), queue built under a scoped subscriber that owns a queue handle", "stream_dropped_within_30s": is_closed, "reached_the_stream": got}));
+        if !is_closed || got != vec![0, 1, 2] {
+            rep.violation(
+                "writer:abandoned-join-handle:writer-does-not-shut-down",
+                format!("the queue was built under a scoped tracing subscriber owning a queue handle; handle forgotten, every handle and the subscriber dropped: after {} the stream has {}been dropped and has seen {got:?}", if is_closed { "that" } else { "30 s" }, if is_closed { "" } else { "NOT " }),
+                json!({"join_handle_abandoned_by": "forget()", "built_under_scoped_subscriber_owning_a_handle": true, "stream_dropped": is_closed, "reached_the_stream": got}),
+            );
+        }
+    }
     rep.set("writer_model_abandoned_join_handle", json!(runs));
 }
 
